@@ -220,6 +220,32 @@ func runC02(c *Ctx) {
 								}
 							}
 						}
+						// or the exit is the non-nil side of a test of a value that is handlePacket's error or nil (the
+						// shape once the gate and the dispatch sit in one helper: `err` joins "refused, nil" and the
+						// dispatcher's result)
+						if iff, isIf := b.Instrs[len(b.Instrs)-1].(*ssa.If); !okExit && w.fn == osWorker && isIf {
+							if bo, isBin := iff.Cond.(*ssa.BinOp); isBin && isNilConst(bo.Y) && (bo.Op == token.NEQ || bo.Op == token.EQL) {
+								nonNilSide := b.Succs[0]
+								if bo.Op == token.EQL {
+									nonNilSide = b.Succs[1]
+								}
+								only := nonNilSide == s
+								if only {
+									ls := leavesOf(bo.X)
+									hasCall := false
+									for _, l := range ls {
+										switch {
+										case l.Kind == leafConst && isNilConst(l.V):
+										case l.Kind == leafCallResult && l.CallIn != nil && isHandle(l.CallIn):
+											hasCall = true
+										default:
+											only = false
+										}
+									}
+									okExit = only && hasCall
+								}
+							}
+						}
 						c.check(okExit, "R1", w.name+" early exit", p.Pos(b.Instrs[len(b.Instrs)-1].Pos()),
 							"the only early exit follows a failed handlePacket", "the worker loop can be left while requests are still queued: they are never answered")
 					}
